@@ -34,11 +34,10 @@ Lemma graph_beamline_scatter_resolves :
   /\ resolve O FUEL (g_beamline_scatter O) E "Ltotal" = total_beam_length O (L1 O inc) (L2 O sca).
 Proof using. repeat split; reflexivity. Qed.
 
-(* beamline(scatter=False): Ltotal is the straight distance; it offers nothing else *)
+(* beamline(scatter=False): Ltotal is the straight distance *)
 Lemma graph_beamline_no_scatter_resolves :
-  resolve O FUEL (g_beamline_no_scatter O) E "Ltotal" = total_straight_beam_length_no_scatter O src pos
-  /\ nodes O (g_beamline_no_scatter O) = ["Ltotal"].
-Proof using. split; reflexivity. Qed.
+  resolve O FUEL (g_beamline_no_scatter O) E "Ltotal" = total_straight_beam_length_no_scatter O src pos.
+Proof using. reflexivity. Qed.
 
 (* the input coordinates themselves are handed back unchanged (position, source_position, sample_position) *)
 Lemma graph_inputs_resolve :
@@ -47,8 +46,8 @@ Lemma graph_inputs_resolve :
   /\ resolve O FUEL (g_beamline_scatter O) E "sample_position" = smp.
 Proof using. repeat split; reflexivity. Qed.
 
-(* the special-purpose graphs compute their targets exactly as beamline(scatter) does, and
-   two_theta() / Ltotal(True) do not carry the nodes their docstrings exclude *)
+(* the special-purpose graphs compute their targets exactly as beamline(scatter) does (which
+   further nodes they carry is not part of the property) *)
 Lemma subgraphs_agree :
   resolve O FUEL (g_incident_beam O) E "incident_beam" = inc
   /\ resolve O FUEL (g_scattered_beam O) E "scattered_beam" = sca
@@ -56,9 +55,7 @@ Lemma subgraphs_agree :
   /\ resolve O FUEL (g_L2 O) E "L2" = L2 O sca
   /\ resolve O FUEL (g_two_theta O) E "two_theta" = two_theta O inc sca
   /\ resolve O FUEL (g_Ltotal_scatter O) E "Ltotal" = total_beam_length O (L1 O inc) (L2 O sca)
-  /\ resolve O FUEL (g_Ltotal_no_scatter O) E "Ltotal" = total_straight_beam_length_no_scatter O src pos
-  /\ nodes O (g_two_theta O) = ["incident_beam"; "scattered_beam"; "two_theta"]
-  /\ nodes O (g_Ltotal_scatter O) = ["incident_beam"; "scattered_beam"; "L1"; "L2"; "Ltotal"].
+  /\ resolve O FUEL (g_Ltotal_no_scatter O) E "Ltotal" = total_straight_beam_length_no_scatter O src pos.
 Proof using. repeat split; reflexivity. Qed.
 
 (* data that carries the two beams instead of the positions: the beams are taken from the data *)
@@ -92,7 +89,7 @@ Proof using.
   intros Hs E src smp pos.
   destruct (graph_beamline_scatter_resolves O (tv x0 y0 z0 s d_m) (tv x1 y1 z1 s d_m) (tv x2 y2 z2 s d_m))
     as (_ & _ & E1 & E2 & _ & E3).
-  destruct (graph_beamline_no_scatter_resolves O (tv x0 y0 z0 s d_m) (tv x1 y1 z1 s d_m) (tv x2 y2 z2 s d_m)) as (E4 & _).
+  pose proof (graph_beamline_no_scatter_resolves O (tv x0 y0 z0 s d_m) (tv x1 y1 z1 s d_m) (tv x2 y2 z2 s d_m)) as E4.
   unfold E; rewrite E1, E2, E3, E4.
   repeat split.
   - apply L1_of_positions; assumption.
